@@ -4,6 +4,7 @@ package main
 
 import (
 	"fmt"
+	"go/token"
 	"go/types"
 
 	"golang.org/x/tools/go/ssa"
@@ -139,18 +140,26 @@ func checkReaderExit(c *Ctx, r *Report) {
 			continue
 		}
 		v, neg := unwrapNot(cond)
-		call, ok := v.(*ssa.Call)
-		if !ok {
-			continue
-		}
-		o := CalleeObj(call)
-		if o == nil || o.Pkg() == nil || o.Pkg().Path() != "errors" || o.Name() != "Is" {
-			continue
+		isEOFVal := func(x ssa.Value) bool {
+			if u, ok := x.(*ssa.UnOp); ok {
+				if g, ok := u.X.(*ssa.Global); ok && g.Name() == "EOF" && g.Pkg.Pkg.Path() == "io" {
+					return true
+				}
+			}
+			return false
 		}
 		isEOF := false
-		if u, ok := call.Call.Args[1].(*ssa.UnOp); ok {
-			if g, ok := u.X.(*ssa.Global); ok && g.Name() == "EOF" && g.Pkg.Pkg.Path() == "io" {
+		if call, ok := v.(*ssa.Call); ok {
+			// errors.Is(err, io.EOF)
+			if o := CalleeObj(call); o != nil && o.Pkg() != nil && o.Pkg().Path() == "errors" && o.Name() == "Is" && isEOFVal(call.Call.Args[1]) {
 				isEOF = true
+			}
+		}
+		if bo, ok := v.(*ssa.BinOp); ok && (bo.Op == token.EQL || bo.Op == token.NEQ) && (isEOFVal(bo.X) || isEOFVal(bo.Y)) {
+			// err == io.EOF
+			isEOF = true
+			if bo.Op == token.NEQ {
+				neg = !neg
 			}
 		}
 		if !isEOF {
